@@ -42,6 +42,9 @@ pub fn new_box(area: &str) -> Option<Box<dyn VerifBox>> {
             crate::protocol::request_response::verif_c13::RrBox::new(),
         )),
         "c02" => Some(Box::new(crate::crypto::noise::verif_c02::NoiseBox::new())),
+        "c16" => Some(Box::new(
+            crate::protocol::libp2p::kademlia::verif_c16::KadBox::new(),
+        )),
         _ => None,
     }
 }
@@ -60,6 +63,7 @@ pub fn areas() -> Vec<&'static str> {
         "c18",
         "c19",
     ]
+    vec!["c16", "c17"]
 }
 
 /// Decode a hex string.
